@@ -1,6 +1,7 @@
 (* Task F2: Forest and UUID-table invariants for the module-list operations. *)
 From Coq Require Import ZArith List Bool Lia Arith.
 From V Require Import Result LazyTree World WorldGuard ForestDefs InvDefs ModListBase.
+From V Require SeqOps SeqOpsProofs.
 Import ListNotations.
 Open Scope Z_scope.
 
@@ -583,7 +584,8 @@ Proof. intro H. destruct (nth_error l k) as [v|] eqn:E; [exists v; reflexivity|]
 Definition F2 (w : world) (o : op) : Prop :=
   match o with
   | ONew _ _ _ _ _ _ _ _ | OModAppend _ _ | OModInsert _ _ _ | OModExtend _ _ | OModRemove _ _ | OModPop _ _
-  | OModDelItem _ _ | OModDelSlice _ _ _ | OModSetItem _ _ _ | OModSetSlice _ _ _ _ | OModClear _ | OModReverse _ => True
+  | OModDelItem _ _ | OModDelSlice _ _ _ | OModSetItem _ _ _ | OModSetSlice _ _ _ _ | OModSetExt _ _ _ _ _ | OModClear _
+  | OModReverse _ => True
   | OSetParent c _ => kindof w c = KMod
   | _ => False
   end.
@@ -1379,6 +1381,374 @@ Proof.
   - reflexivity.
 Qed.
 
+(* ---- extended-slice assignment: the list assign_ext produces ---- *)
+
+Lemma set_at_length (l : list id) : forall p v, length (set_at p v l) = length l.
+Proof.
+  induction l as [|y l IH]; intros p v; destruct p as [|p]; cbn [set_at length]; try reflexivity.
+  rewrite IH. reflexivity.
+Qed.
+
+Lemma nth_set_at_same (l : list id) : forall p v, (p < length l)%nat -> nth_error (set_at p v l) p = Some v.
+Proof.
+  induction l as [|y l IH]; intros p v H; [cbn in H; lia|].
+  destruct p as [|p]; cbn [set_at nth_error]; [reflexivity|]. apply IH. cbn in H. lia.
+Qed.
+
+Lemma nth_set_at_other (l : list id) : forall p v q, q <> p -> nth_error (set_at p v l) q = nth_error l q.
+Proof.
+  induction l as [|y l IH]; intros p v q H; [destruct p; reflexivity|].
+  destruct p as [|p]; destruct q as [|q]; cbn [set_at nth_error]; try reflexivity; [contradiction|].
+  apply IH. intro E. apply H. rewrite E. reflexivity.
+Qed.
+
+Lemma set_positions_length : forall ps vs l, length (set_positions l ps vs) = length l.
+Proof.
+  induction ps as [|p ps IH]; intros vs l; [reflexivity|]. destruct vs as [|v vs]; [reflexivity|].
+  cbn [set_positions]. rewrite IH. apply set_at_length.
+Qed.
+
+(* a position that is not assigned keeps its element *)
+Lemma nth_set_positions_out : forall ps vs l q, ~ In q ps -> nth_error (set_positions l ps vs) q = nth_error l q.
+Proof.
+  induction ps as [|p ps IH]; intros vs l q H; [reflexivity|]. destruct vs as [|v vs]; [reflexivity|].
+  cbn [set_positions]. rewrite IH by (intro Hi; apply H; right; exact Hi).
+  apply nth_set_at_other. intro E. apply H. left. symmetry. exact E.
+Qed.
+
+(* the i-th position of the range receives the i-th value *)
+Lemma nth_set_positions_in : forall ps vs l i p v,
+  NoDup ps -> (forall p, In p ps -> (p < length l)%nat) -> nth_error ps i = Some p -> nth_error vs i = Some v ->
+  nth_error (set_positions l ps vs) p = Some v.
+Proof.
+  induction ps as [|p0 ps IH]; intros vs l i p v Hnd Hlt Hp Hv; [destruct i; discriminate|].
+  destruct vs as [|v0 vs]; [destruct i; discriminate|]. inversion Hnd as [|p0' ps' Hnin Hnd']. subst.
+  cbn [set_positions]. destruct i as [|i]; cbn [nth_error] in Hp, Hv.
+  - inversion Hp. inversion Hv. subst. rewrite nth_set_positions_out by exact Hnin.
+    apply nth_set_at_same. apply Hlt. left. reflexivity.
+  - apply (IH vs (set_at p0 v0 l) i p v Hnd'); [|exact Hp|exact Hv].
+    intros q Hq. rewrite set_at_length. apply Hlt. right. exact Hq.
+Qed.
+
+Lemma In_set_positions l ps vs :
+  length vs = length ps -> NoDup ps -> (forall p, In p ps -> (p < length l)%nat) ->
+  forall x, In x (set_positions l ps vs) <-> In x vs \/ (exists q, nth_error l q = Some x /\ ~ In q ps).
+Proof.
+  intros Hlen Hnd Hlt x. split.
+  - intro H. apply In_nth_error in H. destruct H as [q Hq].
+    destruct (in_dec Nat.eq_dec q ps) as [Hi|Hi].
+    + left. apply In_nth_error in Hi. destruct Hi as [i Hi].
+      assert (Hil : (i < length vs)%nat) by (rewrite Hlen; apply nth_error_Some; rewrite Hi; discriminate).
+      destruct (nth_error vs i) as [v|] eqn:Ev; [|apply nth_error_None in Ev; lia].
+      rewrite (nth_set_positions_in ps vs l i q v Hnd Hlt Hi Ev) in Hq. inversion Hq. subst.
+      eapply nth_error_In. exact Ev.
+    + right. exists q. rewrite nth_set_positions_out in Hq by exact Hi. split; assumption.
+  - intros [H|[q [Hq Hi]]].
+    + apply In_nth_error in H. destruct H as [i Hi].
+      assert (Hil : (i < length ps)%nat) by (rewrite <- Hlen; apply nth_error_Some; rewrite Hi; discriminate).
+      destruct (nth_error ps i) as [p|] eqn:Ep; [|apply nth_error_None in Ep; lia].
+      eapply nth_error_In. apply (nth_set_positions_in ps vs l i p x Hnd Hlt Ep Hi).
+    + eapply nth_error_In. rewrite nth_set_positions_out by exact Hi. exact Hq.
+Qed.
+
+(* last_assigned: the last position of the range holding x, if any *)
+Lemma last_assigned_some new0 x : forall ps q, last_assigned new0 ps x = Some q -> In q ps /\ nth_error new0 q = Some x.
+Proof.
+  induction ps as [|p ps IH]; intros q H; [discriminate|]. cbn [last_assigned] in H.
+  destruct (last_assigned new0 ps x) as [q'|] eqn:E.
+  - inversion H. subst. destruct (IH q eq_refl) as [H1 H2]. split; [right; exact H1|exact H2].
+  - destruct (nth_error new0 p) as [y|] eqn:Ey; [|discriminate].
+    destruct (Z.eqb_spec y x) as [Eyx|Eyx]; [|discriminate]. inversion H. subst. split; [left; reflexivity|exact Ey].
+Qed.
+
+Lemma last_assigned_none new0 x : forall ps, last_assigned new0 ps x = None -> forall p, In p ps -> nth_error new0 p <> Some x.
+Proof.
+  induction ps as [|p0 ps IH]; intros H p Hp; [destruct Hp|]. cbn [last_assigned] in H.
+  destruct (last_assigned new0 ps x) as [q'|] eqn:E; [discriminate|].
+  destruct Hp as [Hp|Hp]; [subst p0|apply IH; [reflexivity|exact Hp]].
+  destruct (nth_error new0 p) as [y|] eqn:Ey; [|discriminate].
+  destruct (Z.eqb_spec y x) as [Eyx|Eyx]; [discriminate|]. intro Hc. inversion Hc. contradiction.
+Qed.
+
+(* x survives at position pos *)
+Definition kept_at (new0 : list id) (ps : list nat) (pos : nat) (x : id) : Prop :=
+  last_assigned new0 ps x = None \/ last_assigned new0 ps x = Some pos.
+
+Lemma keep_head new0 ps pos y x :
+  In x (match last_assigned new0 ps y with Some q => if Nat.eqb q pos then [y] else [] | None => [y] end) <->
+  x = y /\ kept_at new0 ps pos y.
+Proof.
+  unfold kept_at. destruct (last_assigned new0 ps y) as [q|].
+  - destruct (Nat.eqb_spec q pos) as [E|E].
+    + subst q. split; [intros [H|[]]; split; [symmetry; exact H|right; reflexivity]|intros [H _]; left; symmetry; exact H].
+    + split; [intros []|]. intros [_ [H|H]]; [discriminate|]. inversion H. contradiction.
+  - split; [intros [H|[]]; split; [symmetry; exact H|left; reflexivity]|intros [H _]; left; symmetry; exact H].
+Qed.
+
+Lemma In_keep_last_from new0 ps x : forall rest pos,
+  In x (keep_last_from pos new0 rest ps) <-> exists j, nth_error rest j = Some x /\ kept_at new0 ps (pos + j) x.
+Proof.
+  induction rest as [|y r IH]; intro pos.
+  - split; [intros []|]. intros [j [H _]]. destruct j; discriminate.
+  - cbn [keep_last_from]. rewrite in_app_iff, keep_head, IH. split.
+    + intros [[E K]|[j [Hj K]]].
+      * subst y. exists 0%nat. rewrite Nat.add_0_r. split; [reflexivity|exact K].
+      * exists (S j). rewrite Nat.add_succ_r. split; [exact Hj|exact K].
+    + intros [j [Hj K]]. destruct j as [|j].
+      * left. cbn [nth_error] in Hj. inversion Hj. subst y. rewrite Nat.add_0_r in K. split; [reflexivity|exact K].
+      * right. exists j. rewrite Nat.add_succ_r in K. split; [exact Hj|exact K].
+Qed.
+
+Lemma NoDup_keep_last_from new0 ps : forall rest pos,
+  (forall i j x, nth_error rest i = Some x -> nth_error rest j = Some x ->
+                 kept_at new0 ps (pos + i) x -> kept_at new0 ps (pos + j) x -> i = j) ->
+  NoDup (keep_last_from pos new0 rest ps).
+Proof.
+  induction rest as [|y r IH]; intros pos H; [constructor|]. cbn [keep_last_from].
+  apply NoDup_app_intro.
+  - destruct (last_assigned new0 ps y) as [q|]; [destruct (Nat.eqb q pos)|];
+      try constructor; try (intros []); constructor.
+  - apply IH. intros i j x Hi Hj Ki Kj.
+    assert (E : S i = S j).
+    { apply (H (S i) (S j) x); [exact Hi|exact Hj|rewrite Nat.add_succ_r; exact Ki|rewrite Nat.add_succ_r; exact Kj]. }
+    inversion E. reflexivity.
+  - intros x H1 H2. apply keep_head in H1. destruct H1 as [E K]. subst y.
+    apply In_keep_last_from in H2. destruct H2 as [j [Hj Kj]].
+    assert (E : 0%nat = S j).
+    { apply (H 0%nat (S j) x); [reflexivity|exact Hj|rewrite Nat.add_0_r; exact K|rewrite Nat.add_succ_r; exact Kj]. }
+    discriminate.
+Qed.
+
+Lemma keep_last_from_id new0 ps : forall rest pos,
+  (forall j x, nth_error rest j = Some x -> kept_at new0 ps (pos + j) x) -> keep_last_from pos new0 rest ps = rest.
+Proof.
+  induction rest as [|y r IH]; intros pos H; [reflexivity|]. cbn [keep_last_from].
+  rewrite (IH (S pos)).
+  - pose proof (H 0%nat y eq_refl) as K. rewrite Nat.add_0_r in K. destruct K as [K|K]; rewrite K; [reflexivity|].
+    rewrite Nat.eqb_refl. reflexivity.
+  - intros j x Hj. replace (S pos + j)%nat with (pos + S j)%nat by lia. apply (H (S j) x). exact Hj.
+Qed.
+
+(* dropping the earlier occurrences changes no membership *)
+Lemma In_keep_last new0 ps x : In x (keep_last_from 0 new0 new0 ps) <-> In x new0.
+Proof.
+  rewrite In_keep_last_from. split.
+  - intros [j [Hj _]]. eapply nth_error_In. exact Hj.
+  - intro H. destruct (last_assigned new0 ps x) as [q|] eqn:E.
+    + destruct (last_assigned_some new0 x ps q E) as [_ Hq]. exists q. split; [exact Hq|right; exact E].
+    + apply In_nth_error in H. destruct H as [j Hj]. exists j. split; [exact Hj|left; exact E].
+Qed.
+
+Lemma In_assign_ext_set l ps vs x : In x (assign_ext l ps vs) <-> In x (set_positions l ps vs).
+Proof. unfold assign_ext. apply In_keep_last. Qed.
+
+(* the members afterwards: the assigned values, and the elements at the positions that were not assigned *)
+Lemma In_assign_ext l ps vs :
+  length vs = length ps -> NoDup ps -> (forall p, In p ps -> (p < length l)%nat) ->
+  forall x, In x (assign_ext l ps vs) <-> In x vs \/ (exists q, nth_error l q = Some x /\ ~ In q ps).
+Proof. intros Hlen Hnd Hlt x. rewrite In_assign_ext_set. apply In_set_positions; assumption. Qed.
+
+(* no duplicates afterwards -- whatever the positions and the values are *)
+Lemma NoDup_assign_ext_gen l ps vs : NoDup l -> NoDup (assign_ext l ps vs).
+Proof.
+  intro Hnd. unfold assign_ext. set (new0 := set_positions l ps vs).
+  apply NoDup_keep_last_from. intros i j x Hi Hj Ki Kj. cbn [Nat.add] in Ki, Kj.
+  destruct Ki as [Ki|Ki].
+  - assert (Hout : forall k, nth_error new0 k = Some x -> nth_error l k = Some x).
+    { intros k Hk. unfold new0 in Hk. rewrite nth_set_positions_out in Hk; [exact Hk|].
+      intro Hin. apply (last_assigned_none new0 x ps Ki k Hin). exact Hk. }
+    apply Hout in Hi. apply Hout in Hj.
+    apply (proj1 (NoDup_nth_error l) Hnd); [apply nth_error_Some; rewrite Hi; discriminate|].
+    rewrite Hi, Hj. reflexivity.
+  - destruct Kj as [Kj|Kj]; rewrite Ki in Kj; [discriminate|]. inversion Kj. reflexivity.
+Qed.
+
+Lemma NoDup_assign_ext l ps vs :
+  NoDup l -> NoDup ps -> (forall p, In p ps -> (p < length l)%nat) -> length vs = length ps -> NoDup (assign_ext l ps vs).
+Proof. intros Hnd _ _ _. apply NoDup_assign_ext_gen. exact Hnd. Qed.
+
+(* nothing is dropped exactly when the built-in list's result has no duplicates *)
+Lemma assign_ext_id_iff l ps vs :
+  NoDup l -> (assign_ext l ps vs = set_positions l ps vs <-> NoDup (set_positions l ps vs)).
+Proof.
+  intro Hnd. split.
+  - intro E. rewrite <- E. apply NoDup_assign_ext_gen. exact Hnd.
+  - intro Hn. unfold assign_ext. set (new0 := set_positions l ps vs) in *. apply keep_last_from_id.
+    intros j x Hj. cbn [Nat.add]. destruct (last_assigned new0 ps x) as [q|] eqn:E; [|left; exact E].
+    right. destruct (last_assigned_some new0 x ps q E) as [_ Hq]. rewrite E. f_equal.
+    apply (proj1 (NoDup_nth_error new0) Hn); [apply nth_error_Some; rewrite Hq; discriminate|].
+    rewrite Hq, Hj. reflexivity.
+Qed.
+
+(* distinct values, none of which stays in the list outside the assigned positions: the built-in list has no duplicates *)
+Lemma NoDup_set_positions l ps vs :
+  NoDup l -> NoDup ps -> (forall p, In p ps -> (p < length l)%nat) -> length vs = length ps -> NoDup vs ->
+  (forall v, In v vs -> forall q, nth_error l q = Some v -> In q ps) ->
+  NoDup (set_positions l ps vs).
+Proof.
+  intros Hnd Hndp Hlt Hlen Hndv Hsep. set (new0 := set_positions l ps vs).
+  assert (Hin : forall k x, In k ps -> nth_error new0 k = Some x -> exists i, nth_error ps i = Some k /\ nth_error vs i = Some x).
+  { intros k x Hk Hx. apply In_nth_error in Hk. destruct Hk as [i Hi]. exists i. split; [exact Hi|].
+    assert (Hil : (i < length vs)%nat) by (rewrite Hlen; apply nth_error_Some; rewrite Hi; discriminate).
+    destruct (nth_error vs i) as [v|] eqn:Ev; [|apply nth_error_None in Ev; lia].
+    unfold new0 in Hx. rewrite (nth_set_positions_in ps vs l i k v Hndp Hlt Hi Ev) in Hx. exact Hx. }
+  assert (Hout : forall k x, ~ In k ps -> nth_error new0 k = Some x -> nth_error l k = Some x).
+  { intros k x Hk Hx. unfold new0 in Hx. rewrite nth_set_positions_out in Hx by exact Hk. exact Hx. }
+  apply NoDup_nth_error. intros i j Hi E.
+  destruct (nth_error new0 i) as [x|] eqn:Ex; [|apply nth_error_None in Ex; lia]. symmetry in E.
+  destruct (in_dec Nat.eq_dec i ps) as [Pi|Pi]; destruct (in_dec Nat.eq_dec j ps) as [Pj|Pj].
+  - destruct (Hin i x Pi Ex) as [a [Ha Va]]. destruct (Hin j x Pj E) as [b [Hb Vb]].
+    assert (Eab : a = b).
+    { apply (proj1 (NoDup_nth_error vs) Hndv); [apply nth_error_Some; rewrite Va; discriminate|]. rewrite Va, Vb. reflexivity. }
+    subst b. rewrite Ha in Hb. inversion Hb. reflexivity.
+  - exfalso. destruct (Hin i x Pi Ex) as [a [_ Va]]. apply Pj. apply (Hsep x); [eapply nth_error_In; exact Va|].
+    apply Hout; assumption.
+  - exfalso. destruct (Hin j x Pj E) as [a [_ Va]]. apply Pi. apply (Hsep x); [eapply nth_error_In; exact Va|].
+    apply Hout; assumption.
+  - apply (proj1 (NoDup_nth_error l) Hnd).
+    + apply nth_error_Some. rewrite (Hout i x Pi Ex). discriminate.
+    + rewrite (Hout i x Pi Ex), (Hout j x Pj E). reflexivity.
+Qed.
+
+(* ... and then assign_ext is the built-in list's result: the values at the positions of the range, the rest untouched *)
+Lemma assign_ext_separate l ps vs :
+  NoDup l -> NoDup ps -> (forall p, In p ps -> (p < length l)%nat) -> length vs = length ps -> NoDup vs ->
+  (forall v, In v vs -> forall q, nth_error l q = Some v -> In q ps) ->
+  assign_ext l ps vs = set_positions l ps vs.
+Proof.
+  intros Hnd Hndp Hlt Hlen Hndv Hsep. apply (assign_ext_id_iff l ps vs Hnd).
+  apply NoDup_set_positions; assumption.
+Qed.
+
+(* the premise is exact: under the other premises, nothing is dropped only if the values are distinct and none stays outside *)
+Lemma assign_ext_separate_conv l ps vs :
+  NoDup l -> NoDup ps -> (forall p, In p ps -> (p < length l)%nat) -> length vs = length ps ->
+  assign_ext l ps vs = set_positions l ps vs ->
+  NoDup vs /\ (forall v, In v vs -> forall q, nth_error l q = Some v -> In q ps).
+Proof.
+  intros Hnd Hndp Hlt Hlen E. apply (assign_ext_id_iff l ps vs Hnd) in E. set (new0 := set_positions l ps vs) in *.
+  assert (Hval : forall i v, nth_error vs i = Some v -> exists p, nth_error ps i = Some p /\ nth_error new0 p = Some v).
+  { intros i v Hv.
+    assert (Hil : (i < length ps)%nat) by (rewrite <- Hlen; apply nth_error_Some; rewrite Hv; discriminate).
+    destruct (nth_error ps i) as [p|] eqn:Ep; [|apply nth_error_None in Ep; lia].
+    exists p. split; [reflexivity|]. apply (nth_set_positions_in ps vs l i p v Hndp Hlt Ep Hv). }
+  split.
+  - apply NoDup_nth_error. intros i j Hi Eij.
+    destruct (nth_error vs i) as [v|] eqn:Ev; [|apply nth_error_None in Ev; lia]. symmetry in Eij.
+    destruct (Hval i v Ev) as [p [Hp Np]]. destruct (Hval j v Eij) as [q [Hq Nq]].
+    assert (Epq : p = q).
+    { apply (proj1 (NoDup_nth_error new0) E); [apply nth_error_Some; rewrite Np; discriminate|]. rewrite Np, Nq. reflexivity. }
+    subst q. apply (proj1 (NoDup_nth_error ps) Hndp); [apply nth_error_Some; rewrite Hp; discriminate|].
+    rewrite Hp, Hq. reflexivity.
+  - intros v Hv q Hq. destruct (in_dec Nat.eq_dec q ps) as [Pq|Pq]; [exact Pq|exfalso].
+    apply In_nth_error in Hv. destruct Hv as [i Hi]. destruct (Hval i v Hi) as [p [Hp Np]].
+    assert (Nq : nth_error new0 q = Some v) by (unfold new0; rewrite nth_set_positions_out by exact Pq; exact Hq).
+    assert (Epq : p = q).
+    { apply (proj1 (NoDup_nth_error new0) E); [apply nth_error_Some; rewrite Np; discriminate|]. rewrite Np, Nq. reflexivity. }
+    subst q. apply Pq. eapply nth_error_In. exact Hp.
+Qed.
+
+(* reading the same slice back returns what was written (the built-in list's l[a:b:c] = vs; l[a:b:c] == vs) *)
+Lemma gather_written (new : list Z) : forall ps (vs : list Z), length vs = length ps ->
+  (forall i p v, nth_error ps i = Some p -> nth_error vs i = Some v -> nth_error new p = Some v) ->
+  SeqOps.gather new ps = vs.
+Proof.
+  induction ps as [|p ps IH]; intros vs Hlen H; destruct vs as [|v vs]; try discriminate Hlen; [reflexivity|].
+  cbn [SeqOps.gather]. rewrite (H 0%nat p v eq_refl eq_refl). f_equal. apply IH; [cbn in Hlen; lia|].
+  intros i q u Hi Hu. apply (H (S i) q u); assumption.
+Qed.
+
+Theorem set_positions_read_back l a b c vs s e st :
+  SeqOps.py_slice_indices a b c (length l) = Ok (s, e, st) ->
+  let ps := SeqOps.py_range_positions s e st (length l) in
+  length vs = length ps ->
+  SeqOps.py_getslice (set_positions l ps vs) a b c = Ok vs.
+Proof.
+  intros E ps Hlen. destruct (SeqOpsProofs.py_range_positions_NoDup _ _ _ _ _ _ _ E) as (_ & _ & Hnd & Hlt).
+  unfold SeqOps.py_getslice. rewrite set_positions_length, E. fold ps. f_equal. apply gather_written; [exact Hlen|].
+  intros i p v Hi Hv. apply (nth_set_positions_in ps vs l i p v Hnd Hlt Hi Hv).
+Qed.
+
+(* the elements of the produced list that were not in the old one are among the assigned values *)
+Lemma set_at_incl (l : list id) : forall p v x, In x (set_at p v l) -> In x l \/ x = v.
+Proof.
+  induction l as [|y l IH]; intros p v x H; [left; destruct p; exact H|].
+  destruct p as [|p]; cbn [set_at] in H.
+  - destruct H as [H|H]; [right; symmetry; exact H|left; right; exact H].
+  - destruct H as [H|H]; [left; left; exact H|].
+    destruct (IH p v x H) as [H1|H1]; [left; right; exact H1|right; exact H1].
+Qed.
+
+Lemma set_positions_incl : forall ps vs l x, In x (set_positions l ps vs) -> In x l \/ In x vs.
+Proof.
+  induction ps as [|p ps IH]; intros vs l x H; [left; exact H|].
+  destruct vs as [|v vs]; [left; exact H|]. cbn [set_positions] in H.
+  destruct (IH vs (set_at p v l) x H) as [H1|H1].
+  - destruct (set_at_incl l p v x H1) as [H2|H2]; [left; exact H2|right; left; symmetry; exact H2].
+  - right; right; exact H1.
+Qed.
+
+Lemma assign_ext_new_is_value l ps vs x : In x (assign_ext l ps vs) -> ~ In x l -> In x vs.
+Proof.
+  intros H Hn. apply In_assign_ext_set in H. apply set_positions_incl in H. destruct H as [H|H]; [contradiction|exact H].
+Qed.
+
+(* ---- extended-slice assignment: the operation ---- *)
+
+Lemma slice_indices_err a b c len er : SeqOps.py_slice_indices a b c len = Err er -> er = EValue /\ c = 0.
+Proof.
+  unfold SeqOps.py_slice_indices. cbv zeta. destruct (Z.eqb_spec c 0) as [E|E]; intro H; [|discriminate].
+  inversion H. split; [reflexivity|exact E].
+Qed.
+
+Lemma step_setext w ir a b c vs s e st :
+  SeqOps.py_slice_indices a b c (length (kids w ir)) = Ok (s, e, st) -> c <> 1 ->
+  length vs = length (SeqOps.py_range_positions s e st (length (kids w ir))) ->
+  step w (OModSetExt ir a b c vs) =
+  flagged (ml_assign w ir (assign_ext (kids w ir) (SeqOps.py_range_positions s e st (length (kids w ir))) vs)).
+Proof.
+  intros E Hc Hlen. destruct (SeqOpsProofs.py_range_positions_NoDup _ _ _ _ _ _ _ E) as [Hst _].
+  cbn [step]. cbv zeta. rewrite E. cbv beta iota. subst st.
+  destruct (Z.eqb_spec c 1) as [H1|H1]; [contradiction|].
+  rewrite Hlen, Nat.eqb_refl. reflexivity.
+Qed.
+
+(* ValueError: attempt to assign sequence of size n to extended slice of size m *)
+Lemma step_setext_len w ir a b c vs s e st :
+  SeqOps.py_slice_indices a b c (length (kids w ir)) = Ok (s, e, st) -> c <> 1 ->
+  length vs <> length (SeqOps.py_range_positions s e st (length (kids w ir))) ->
+  step w (OModSetExt ir a b c vs) = Err EValue.
+Proof.
+  intros E Hc Hlen. destruct (SeqOpsProofs.py_range_positions_NoDup _ _ _ _ _ _ _ E) as [Hst _].
+  cbn [step]. cbv zeta. rewrite E. cbv beta iota. subst st.
+  destruct (Z.eqb_spec c 1) as [H1|H1]; [contradiction|].
+  destruct (Nat.eqb_spec (length vs) (length (SeqOps.py_range_positions s e c (length (kids w ir))))) as [H2|H2];
+    [contradiction|reflexivity].
+Qed.
+
+(* ValueError: slice step cannot be zero *)
+Lemma step_setext_zero w ir a b vs : step w (OModSetExt ir a b 0 vs) = Err EValue.
+Proof. reflexivity. Qed.
+
+Lemma good_setext w known ir a b c vs :
+  Forest w known -> CacheInv w -> op_okb w known (OModSetExt ir a b c vs) = true -> Good w known (OModSetExt ir a b c vs).
+Proof.
+  intros F C G. cbn [op_okb] in G. apply andb_true_iff in G. destruct G as [G G3].
+  apply andb_true_iff in G. destruct G as [G1 G2]. rewrite forallb_forall in G2.
+  apply negb_true_iff in G3. apply Z.eqb_neq in G3.
+  destruct (SeqOps.py_slice_indices a b c (length (kids w ir))) as [[[s e] st]|er] eqn:E.
+  - set (ps := SeqOps.py_range_positions s e st (length (kids w ir))).
+    destruct (Nat.eq_dec (length vs) (length ps)) as [Hlen|Hlen].
+    + apply (good_assign w known _ ir (assign_ext (kids w ir) ps vs) F C G1).
+      * apply NoDup_assign_ext_gen. apply (f_nodup w known F).
+      * intros x Hx Hnx. apply G2. apply (assign_ext_new_is_value _ _ _ _ Hx Hnx).
+      * apply step_setext; assumption.
+      * reflexivity.
+    + apply (good_err w known _ EValue); [eapply step_setext_len; eassumption|discriminate|reflexivity|exact F|exact C].
+  - destruct (slice_indices_err _ _ _ _ _ E) as [_ ->].
+    apply (good_err w known _ EValue); [apply step_setext_zero|discriminate|reflexivity|exact F|exact C].
+Qed.
+
 (* ================================================================== *)
 (* main theorems                                                       *)
 (* ================================================================== *)
@@ -1398,6 +1768,7 @@ Proof.
   - apply good_delslice; assumption.
   - apply good_setitem; assumption.
   - apply good_setslice; assumption.
+  - apply good_setext; assumption.
   - apply good_clear; assumption.
   - apply good_reverse; assumption.
 Qed.
@@ -2298,6 +2669,51 @@ Proof.
     erewrite par_of_nodes; [|rewrite Hn, Hnvs, Hvi; reflexivity]. reflexivity.
 Qed.
 
+(* ---------- set an extended slice: l[a:b:c] = vs with a step other than 1 ---------- *)
+Theorem setext_effect w known ir a b c vs s e st :
+  Forest w known -> CacheInv w -> op_okb w known (OModSetExt ir a b c vs) = true ->
+  SeqOps.py_slice_indices a b c (length (kids w ir)) = Ok (s, e, st) ->
+  let ps := SeqOps.py_range_positions s e st (length (kids w ir)) in
+  length vs = length ps ->
+  exists w', step w (OModSetExt ir a b c vs) = Ok w' /\
+    kids w' ir = assign_ext (kids w ir) ps vs /\ NoDup (kids w' ir) /\
+    (forall x, In x (kids w' ir) -> par w' x = Some ir) /\
+    (forall x, In x (kids w ir) -> ~ In x (kids w' ir) -> par w' x = None).
+Proof.
+  intros F C G E ps Hlen. pose proof G as G'.
+  cbn [op_okb] in G. apply andb_true_iff in G. destruct G as [G G3].
+  apply andb_true_iff in G. destruct G as [G1 G2]. rewrite forallb_forall in G2.
+  apply negb_true_iff in G3. apply Z.eqb_neq in G3.
+  assert (Hndl : NoDup (kids w ir)) by apply (f_nodup w known F).
+  set (new := assign_ext (kids w ir) ps vs).
+  assert (Hndn : NoDup new) by (apply NoDup_assign_ext_gen; exact Hndl).
+  assert (Gv : forall x, In x new -> ~ In x (kids w ir) -> is_k w x KMod = true).
+  { intros x Hx Hnx. apply G2. apply (assign_ext_new_is_value _ _ _ _ Hx Hnx). }
+  destruct (assign_inv w known ir new F C G1 Hndn Gv) as [F' [_ Hf]].
+  destruct (assign_closed w known ir new F C G1 Hndn Gv) as [Hk [_ Hn]].
+  exists (fst (ml_assign w ir new)).
+  split; [rewrite (step_setext w ir a b c vs s e st E G3 Hlen); apply flagged_true; exact Hf|].
+  split; [exact Hk|]. split; [rewrite Hk; exact Hndn|]. split.
+  - intros x Hx. apply (f_two_ended _ known F'). exact Hx.
+  - intros x Hx Hnx. rewrite Hk in Hnx.
+    assert (Hm1 : mem x new = false) by (apply mem_false; exact Hnx).
+    assert (Hm2 : mem x (kids w ir) = true) by (apply mem_In; exact Hx).
+    erewrite par_of_nodes; [|rewrite Hn, Hm1, Hm2; reflexivity]. reflexivity.
+Qed.
+
+(* the built-in's two ValueErrors; the list, the parents and the table stay as they were *)
+Theorem setext_effect_errors w ir a b c vs :
+  (c = 0 -> step w (OModSetExt ir a b c vs) = Err EValue /\ step' w (OModSetExt ir a b c vs) = w) /\
+  (forall s e st, c <> 1 -> SeqOps.py_slice_indices a b c (length (kids w ir)) = Ok (s, e, st) ->
+     length vs <> length (SeqOps.py_range_positions s e st (length (kids w ir))) ->
+     step w (OModSetExt ir a b c vs) = Err EValue /\ step' w (OModSetExt ir a b c vs) = w).
+Proof.
+  split.
+  - intros ->. split; [apply step_setext_zero|]. apply (step'_err _ _ EValue). apply step_setext_zero.
+  - intros s e st Hc E Hlen. pose proof (step_setext_len w ir a b c vs s e st E Hc Hlen) as H.
+    split; [exact H|]. apply (step'_err _ _ EValue). exact H.
+Qed.
+
 (* ---------- kids of non-IR nodes never change under the module-list operations ---------- *)
 Lemma fold_remove_mods_nonir w known vs x :
   Forest w known -> (forall v, In v vs -> kindof w v = KMod) -> kindof w x <> KIR ->
@@ -2396,6 +2812,15 @@ Print Assumptions setitem_effect_moves.
 Print Assumptions setslice_effect.
 Print Assumptions setslice_list_separate.
 Print Assumptions setslice_effect_moves.
+Print Assumptions In_assign_ext.
+Print Assumptions NoDup_assign_ext.
+Print Assumptions assign_ext_id_iff.
+Print Assumptions assign_ext_separate.
+Print Assumptions assign_ext_separate_conv.
+Print Assumptions set_positions_read_back.
+Print Assumptions good_setext.
+Print Assumptions setext_effect.
+Print Assumptions setext_effect_errors.
 Print Assumptions clear_effect.
 Print Assumptions reverse_effect.
 Print Assumptions setparent_none_effect.
